@@ -18,18 +18,18 @@ import (
 
 // docSpec selects the features of a generated base document.
 type docSpec struct {
-	version  pdf.Version
-	human    bool // human-readable: xref table, no object streams
-	pages    int
-	fonts    int // 0 none, 1 type1, 2 type1+truetype, 3 +cff
-	outline  bool
-	names    bool
-	extra    int // extra compressed objects
-	lzw      bool
-	incr     int // number of hand-made incremental updates (/Prev chain)
-	badFont  bool // a Type1 font dictionary whose /FontFile is not a font (F7)
-	inherit  bool // nested /Pages nodes with inheritable attributes
-	dct      bool // an image XObject with /DCTDecode data
+	version pdf.Version
+	human   bool // human-readable: xref table, no object streams
+	pages   int
+	fonts   int // 0 none, 1 type1, 2 type1+truetype, 3 +cff
+	outline bool
+	names   bool
+	extra   int // extra compressed objects
+	lzw     bool
+	incr    int  // number of hand-made incremental updates (/Prev chain)
+	badFont bool // a Type1 font dictionary whose /FontFile is not a font (F7)
+	inherit bool // nested /Pages nodes with inheritable attributes
+	dct     bool // an image XObject with /DCTDecode data
 }
 
 func mustNil(err error) {
@@ -159,7 +159,7 @@ func makeDoc(sp docSpec) []byte {
 		fd := w.Alloc()
 		mustNil(w.Put(fd, pdf.Dict{
 			"Type": pdf.Name("FontDescriptor"), "FontName": pdf.Name("Bogus"), "Flags": pdf.Integer(32),
-			"FontBBox": pdf.Array{pdf.Integer(0), pdf.Integer(0), pdf.Integer(1000), pdf.Integer(1000)},
+			"FontBBox":    pdf.Array{pdf.Integer(0), pdf.Integer(0), pdf.Integer(1000), pdf.Integer(1000)},
 			"ItalicAngle": pdf.Integer(0), "Ascent": pdf.Integer(800), "Descent": pdf.Integer(-200),
 			"CapHeight": pdf.Integer(700), "StemV": pdf.Integer(80), "FontFile": ff,
 		}))
